@@ -137,6 +137,24 @@ def run(pid, tier, seed, replay=None):
                     seen.add(tuple(c))
                     pairs.append((g, strict, c))
                     stats['block_inputs'] = stats.get('block_inputs', 0) + 1
+    # a rule with several translated terminals behind a construct that has an `error' alternative: after the repair the
+    # nodes of the following tokens must be the nodes of *their* tokens (all parses requested: terminal nodes are re-used)
+    errmid = []
+    for _ in range(10 if quick else 100):
+        pre = rng.sample(['a', 'b', 'f'], rng.randint(1, 2))
+        post = rng.sample(['c', 'd', 'e', 'g'], rng.randint(2, 3))
+        rhs = pre + ['T'] + post
+        tr = list(range(len(rhs)))
+        if rng.random() < 0.3:
+            rng.shuffle(tr)
+        gm = gen.Gram([(t, ord(t)) for t in ['a', 'b', 'f', 'c', 'd', 'e', 'g', 'x', 'y']],
+                      [('P', rhs, 'p', 0, tr), ('T', ['x'], rng.choice([None, 't']), 0, [0]), ('T', ['x', 'y'], 'u', 0, [0, 1]), ('T', ['error'], 'bad', 0, [])])
+        for mid in (['y', 'y'], ['y'], ['x', 'x'], [], ['x', 'y', 'y'], ['x']):
+            w = pre + mid + post
+            if len(w) <= 9:
+                errmid.append((gm, True, w))
+    pairs += errmid
+    stats['error_mid_inputs'] = len(errmid)
     pairs += errlists
     stats['error_list_inputs'] = len(errlists)
     if pid in ('C06', 'C08'):
@@ -180,6 +198,7 @@ def run(pid, tier, seed, replay=None):
     res = yvlib.run_driver(exe, '\n'.join(script))
     # ---- second oracle round ----
     extra_q, extra_idx = [], []
+    later = {}
     for (i, ci, cfg), r in zip(index, res):
         g, strict, w = pairs[i]
         ops = cp.get_ops(r)
@@ -209,24 +228,40 @@ def run(pid, tier, seed, replay=None):
                 if len(cands) > 2500:
                     break
             if len(cands) <= 2500:
-                ga = augs[i]
-                codes = [c for nm, c in ga.terms]
-                enc = ga.enc_rules(names[i])
-                for segs in cands:
-                    toks2, attrs2 = [], []
-                    pos = 0
-                    for (s, t) in segs:
-                        toks2 += w[pos:s]; attrs2 += list(range(pos, s))
-                        toks2.append('error'); attrs2.append(0)
-                        pos = t
-                    toks2 += w[pos:]; attrs2 += list(range(pos, n))
-                    toks2.append('$eof'); attrs2.append(n)
-                    t = [ga.tnum[x] for x in toks2]
-                    extra_q.append('TRANSA ' + ' '.join(map(str, [FUEL] + enc + [len(codes)] + codes + [ga.tnum['error'], ga.nnum['$S'], len(t)] + t + attrs2)))
-                    extra_idx.append(('repair', i, ci, segs))
+                # first the likely candidates (the reported segments themselves, every single segment, a few more); the rest
+                # is asked for only when none of those explains the tree
+                reported = [(x[2], x[4]) for x in p['errs']]
+                first = [c_ for c_ in cands if len(c_) == 1 or [tuple(sg) for sg in c_] == reported]
+                first += [c_ for c_ in cands if c_ not in first][:25]
+                for segs in first:
+                    extra_q.append(repair_query(augs[i], names[i], w, segs)); extra_idx.append(('repair', i, ci, segs))
+                later[(i, ci)] = [c_ for c_ in cands if c_ not in first]
     import time as _t
     _t0 = _t.time()
-    extra = yvlib.run_oracle(extra_q, qtimeout=(3 if pid == 'C07' else None)) if extra_q else []
+    extra = yvlib.run_oracle(extra_q, qtimeout=(1 if pid == 'C07' else None)) if extra_q else []
+    if pid == 'C07' and later:
+        # second stage: the remaining candidates of the cases no first-stage candidate explains
+        den1, rep1 = {}, {}
+        for key, a in zip(extra_idx, extra):
+            if key[0] == 'denote':
+                den1[(key[1], key[2])] = cp.parse_denote(a)
+            elif key[0] == 'repair':
+                rep1.setdefault((key[1], key[2]), []).append(cp.parse_trans(a))
+        q2, i2 = [], []
+        for (i, ci), rest in later.items():
+            d1 = den1.get((i, ci))
+            if not rest or d1 is None or d1['status'] != 'ok':
+                continue
+            trees = set(d1['trees'])
+            if any(T is not None and trees & set(T) for T in rep1.get((i, ci), [])):
+                continue
+            for segs in rest:
+                q2.append(repair_query(augs[i], names[i], pairs[i][2], segs)); i2.append(('repair', i, ci, segs))
+        if q2:
+            extra += yvlib.run_oracle(q2, qtimeout=1)
+            extra_q += q2
+            extra_idx += i2
+        stats['repair_candidates_second_stage'] = len(q2)
     stats['deep_results_skipped'] = {'count': len(cp.DEEP), 'node_counts': sorted(set(cp.DEEP))[:10]}
     stats['second_oracle_round'] = {'queries': len(extra_q), 'seconds': round(_t.time() - _t0, 1),
                                     'by_kind': {k: sum(1 for x in extra_idx if x[0] == k) for k in set(x[0] for x in extra_idx)},
@@ -314,6 +349,10 @@ def run(pid, tier, seed, replay=None):
                 continue
             trees = set(d['trees'])
             expl = [segs for segs, T in cands if T is not None and trees & set(T)]
+            if not expl and any(T is None for segs, T in cands):
+                # a candidate was not answered within the time limit of the oracle: nothing is known about this case
+                stats['repair_undecided_cases'] = stats.get('repair_undecided_cases', 0) + 1
+                continue
             if not expl:
                 V('repair', 'no repair replacing %d token(s) in %d segment(s) explains the returned tree %s' % (
                     sum(max(0, x[4] - x[2]) for x in errs), len(errs), sorted(trees)[:2])); continue
@@ -335,6 +374,23 @@ def run(pid, tier, seed, replay=None):
     chk.cov['rule'] = ('random grammars with 0-3 `error\' rules (strict for C06) x (random derivations with 1-3 token edits, an extra first token, a dropped last token) '
                        'x lookahead levels x recovery_match 1..5; non-trivial = the input is not a sentence')
     return chk.finish(extra_cov={'stream': stats})
+
+
+def repair_query(ga, names_i, w, segs):
+    """TRANSA query: the translations of w with the segments replaced by `error' (attributes = token positions)."""
+    n = len(w)
+    codes = [c for nm, c in ga.terms]
+    enc = ga.enc_rules(names_i)
+    toks2, attrs2 = [], []
+    pos = 0
+    for (s, t) in segs:
+        toks2 += w[pos:s]; attrs2 += list(range(pos, s))
+        toks2.append('error'); attrs2.append(0)
+        pos = t
+    toks2 += w[pos:]; attrs2 += list(range(pos, n))
+    toks2.append('$eof'); attrs2.append(n)
+    t = [ga.tnum[x] for x in toks2]
+    return 'TRANSA ' + ' '.join(map(str, [FUEL] + enc + [len(codes)] + codes + [ga.tnum['error'], ga.nnum['$S'], len(t)] + t + attrs2))
 
 
 def repairs(n, k, total):
